@@ -41,9 +41,10 @@ def gen_cb(rng: Any, ids: list[int], depth: int, allow_service: bool, p_raise: f
     routes = ["direct", "direct", "shortcut", "resource", "ctxteardown"] + (["service"] if allow_service and depth == 0 else [])
     route = rng.choice(routes)
     kind = rng.choice(["sync", "async", "async", "sync_awaitable"])
+    form = rng.choice(["function", "function", "function", "partial", "object"])  # how the callable is given
     if route == "ctxteardown":
         kind = "async"
-    cb: dict[str, Any] = {"id": cid, "route": route, "kind": kind, "pass_exception": False, "steps": [], "raises": None, "children": []}
+    cb: dict[str, Any] = {"id": cid, "route": route, "kind": kind, "pass_exception": False, "steps": [], "raises": None, "children": [], "form": form}
     if route == "resource":
         cb["ntypes"] = rng.choice([0, 1, 1, 2, 3])  # 0: type of the value; >1: one resource published under several types
     if route in ("direct", "shortcut"):
@@ -247,6 +248,27 @@ class Run:
         from asphalt.core import add_teardown_callback
 
         probe = self.make_probe(cb)
+        form = cb.get("form", "function")
+        if form == "partial":
+            import functools
+
+            probe = functools.partial(probe)
+        elif form == "object":
+            inner = probe
+            if cb["kind"] == "async":
+
+                class AsyncCallableObject:
+                    async def __call__(self, *a: Any) -> Any:
+                        return await inner(*a)
+
+                probe = AsyncCallableObject()
+            else:
+
+                class CallableObject:
+                    def __call__(self, *a: Any) -> Any:
+                        return inner(*a)
+
+                probe = CallableObject()
         try:
             if route == "direct":
                 self.ctx.add_teardown_callback(probe, cb["pass_exception"])
@@ -636,6 +658,9 @@ def features(run: Run) -> dict[str, int]:
         inc("contexts_mixing_3plus_routes")
     for r in routes:
         inc(f"route_{r}")
+    for cid in order:
+        if byid[cid].get("form", "function") != "function" and byid[cid]["route"] in ("direct", "shortcut", "resource"):
+            inc(f"callback_form_{byid[cid]['form']}")
     if any(byid[cid]["route"] == "resource" and byid[cid].get("ntypes", 0) > 1 for cid in order):
         inc("resource_route_multi_type")
     if len(raised_ids) >= 2:
